@@ -31,6 +31,7 @@ import (
 func init() {
 	commands["effects"] = effectsCmd
 	commands["census"] = censusCmd
+	commands["census-syntax"] = censusSyntaxCmd
 }
 
 func censusCmd(args []string) error {
@@ -340,4 +341,59 @@ func effectsCmd(args []string) error {
 	fo.Close()
 	sj, _ := json.Marshal(st)
 	return os.WriteFile(filepath.Join(*out, fmt.Sprintf("stats.%d.json", *shard)), sj, 0o644)
+}
+
+// census-syntax: the shape of the syntax code the Coq models transliterate - every token kind, every function of the lexer
+// (state functions and helpers), every method of the parser, every String method of the AST.  A new state function, token
+// kind or parser method means the model no longer covers the code; the check then says so instead of staying silent.
+func censusSyntaxCmd(args []string) error {
+	repo := args[0]
+	var lines []string
+	for _, pkg := range []string{"token", "lexer", "parser", "ast"} {
+		dir := filepath.Join(repo, pkg)
+		ents, _ := os.ReadDir(dir)
+		for _, e := range ents {
+			if e.IsDir() || !strings.HasSuffix(e.Name(), ".go") || strings.HasSuffix(e.Name(), "_test.go") {
+				continue
+			}
+			fset := gotoken.NewFileSet()
+			f, err := goparser.ParseFile(fset, filepath.Join(dir, e.Name()), nil, 0)
+			if err != nil {
+				continue
+			}
+			for _, d := range f.Decls {
+				switch v := d.(type) {
+				case *ast.FuncDecl:
+					name := v.Name.Name
+					if v.Recv != nil && len(v.Recv.List) > 0 {
+						switch t := v.Recv.List[0].Type.(type) {
+						case *ast.StarExpr:
+							if id, ok := t.X.(*ast.Ident); ok {
+								name = id.Name + "." + name
+							}
+						case *ast.Ident:
+							name = t.Name + "." + name
+						}
+					}
+					lines = append(lines, pkg+" func "+name)
+				case *ast.GenDecl:
+					if pkg != "token" || v.Tok != gotoken.CONST {
+						continue
+					}
+					for _, sp := range v.Specs {
+						if vs, ok := sp.(*ast.ValueSpec); ok {
+							for _, n := range vs.Names {
+								lines = append(lines, "token const "+n.Name)
+							}
+						}
+					}
+				}
+			}
+		}
+	}
+	sort.Strings(lines)
+	for _, l := range lines {
+		fmt.Println(l)
+	}
+	return nil
 }
